@@ -98,7 +98,7 @@ def _val(e, atoms, env):
         if isinstance(v, ast.AST):
             return _val(v, atoms, {})
         return v
-    if isinstance(e, (ast.Tuple, ast.List)):
+    if isinstance(e, ast.Tuple):          # lists are mutable values: they stay expressions
         vals = [_val(x, atoms, env) for x in e.elts]
         if any(v is UNKNOWN for v in vals):
             return UNKNOWN
@@ -127,7 +127,7 @@ def _val(e, atoms, env):
     return UNKNOWN
 
 
-def run_paths(stmts, atoms, env=None, limit=256):
+def run_paths(stmts, atoms, env=None, limit=256, substitute=True):
     """list of Path for the statement list under the truth assignment `atoms`
     (text of a sub-expression -> bool / constant) and initial constants `env`."""
     out = []
@@ -166,13 +166,15 @@ def run_paths(stmts, atoms, env=None, limit=256):
             for t in s0.targets:
                 if isinstance(t, ast.Name):
                     v = _val(s0.value, atoms, env)
-                    env[t.id] = v if v is not UNKNOWN else _subst(s0.value, env)
+                    env[t.id] = v if v is not UNKNOWN else (
+                        _subst(s0.value, env) if substitute else s0.value)
                 elif isinstance(t, (ast.Tuple, ast.List)) and isinstance(
                         s0.value, (ast.Tuple, ast.List)) and len(t.elts) == len(s0.value.elts):
                     olds = [(_val(v, atoms, env), v) for v in s0.value.elts]
                     for te, (cv, ve) in zip(t.elts, olds):
                         if isinstance(te, ast.Name):
-                            env[te.id] = cv if cv is not UNKNOWN else _subst(ve, env)
+                            env[te.id] = cv if cv is not UNKNOWN else (
+                                _subst(ve, env) if substitute else ve)
                 else:
                     for x in ast.walk(t):
                         if isinstance(x, ast.Name) and isinstance(x.ctx, ast.Store):
@@ -187,6 +189,22 @@ def run_paths(stmts, atoms, env=None, limit=256):
     return out
 
 
+def to_ast(v):
+    """literal python value -> ast expression (None if not a literal)"""
+    if v is None or isinstance(v, (bool, int, float, str, complex)):
+        return ast.Constant(v)
+    if isinstance(v, tuple):
+        elts = [to_ast(x) for x in v]
+        if any(e is None for e in elts):
+            return None
+        return ast.Tuple(elts=elts, ctx=ast.Load())
+    return None
+
+
+def subst(expr, env):
+    return _subst(expr, env)
+
+
 def _subst(expr, env):
     """the expression with names replaced by what they were last bound to on this path (so that
     `x = f(a); a = g(x)` keeps the data flow); returns an ast expr"""
@@ -196,8 +214,9 @@ def _subst(expr, env):
                 v = env[node.id]
                 if isinstance(v, ast.AST):
                     return v
-                if v is None or isinstance(v, (bool, int, float, str)):
-                    return ast.Constant(v)
+                c = to_ast(v)
+                if c is not None:
+                    return c
             return node
 
     from .normal import _dc
